@@ -253,7 +253,16 @@ impl FileReader for IOFileReader {
                 // (by the text of the name: a symbolic link keeps the name the
                 // program gives it, so that what it includes in turn is looked
                 // up next to the link)
-                normalize(&parent.join(path))
+                // ... unless the text misleads: `linked_dir/..` is not the
+                // directory the link stands in. The shorter name is taken only
+                // when it names the same file.
+                let joined = parent.join(path);
+                let shorter = normalize(&joined);
+                let same_file = match (joined.canonicalize(), shorter.canonicalize()) {
+                    (Ok(a), Ok(b)) => a == b,
+                    _ => false,
+                };
+                (if same_file { shorter } else { joined })
                     .to_str()
                     .ok_or(FileReaderError::InvalidPath)?
                     .to_owned()
